@@ -30,8 +30,15 @@ func NumberMatches(text string, want Value) bool {
 	text = strings.TrimSpace(text)
 	if want.IsInt {
 		if want.I > 1<<53 || want.I < -(1<<53) {
-			r, ok := new(big.Rat).SetString(text)
-			return ok && r.IsInt() && r.Num().Cmp(big.NewInt(want.I)) == 0
+			if r, ok := new(big.Rat).SetString(text); ok && r.IsInt() && r.Num().Cmp(big.NewInt(want.I)) == 0 {
+				return true
+			}
+			// an integer that a double holds exactly may also be written as a
+			// numeral that reads back to that double
+			f := float64(want.I)
+			if new(big.Float).SetInt64(want.I).Cmp(new(big.Float).SetFloat64(f)) != 0 {
+				return false
+			}
 		}
 		want = NumV(float64(want.I))
 	}
